@@ -12,6 +12,7 @@ search: property oracle on the real objects -- returned points = input points as
 """
 import itertools
 import math
+import time
 import warnings
 
 import numpy as np
@@ -82,19 +83,55 @@ def gen_points(rng, big=False):
         pts.append((float(len(pts)) + 0.25, -3.0))
     if kind not in ("contourlike",) or rng.random() < 0.5:
         rng.shuffle(pts)
-    return {"kind": "points", "x": [p[0] for p in pts], "y": [p[1] for p in pts], "search": rng.random() < 0.7, "gen": kind}
+    c = {"kind": "points", "x": [p[0] for p in pts], "y": [p[1] for p in pts], "search": rng.random() < 0.7, "gen": kind,
+         "container": rng.choice(CONTAINERS)}
+    r = rng.random()
+    if r < 0.08:                                 # repeated points
+        k = rng.randrange(1, max(2, len(pts) // 3))
+        for _ in range(k):
+            j = rng.randrange(len(c["x"]))
+            c["x"].append(c["x"][j])
+            c["y"].append(c["y"][j])
+        c["gen"] = kind + "+dups"
+    elif r < 0.12:                               # fewer than three points
+        k = rng.choice([1, 2])
+        c["x"], c["y"] = c["x"][:k], c["y"][:k]
+        c["gen"] = "tiny"
+    if c["container"] == "int":
+        c["x"] = [float(round(v * 4)) for v in c["x"]]
+        c["y"] = [float(round(v * 4)) for v in c["y"]]
+    return c
+
+
+CONTAINERS = ["ndarray"] * 10 + ["int", "int", "series", "series", "list", "tuple", "series_shifted"]
+
+
+def as_container(vals, kind):
+    """the array_like forms the docstring admits for x and y"""
+    if kind == "list":
+        return [float(v) for v in vals]
+    if kind == "tuple":
+        return tuple(float(v) for v in vals)
+    if kind == "series":
+        import pandas as pd
+        return pd.Series([float(v) for v in vals])
+    if kind == "series_shifted":
+        import pandas as pd
+        return pd.Series([float(v) for v in vals], index=range(100, 100 + len(vals)))
+    if kind == "int":
+        return np.array([int(v) for v in vals], dtype=np.int64)
+    return np.array(vals, dtype=float)
 
 
 def run_sorter(c):
     f = _sorter()
-    x = np.array(c["x"], dtype=float)
-    y = np.array(c["y"], dtype=float)
+    kind = c.get("container", "ndarray")
     out = {}
     with M.Recording() as rec:
         try:
-            xx, yy = f(x.copy(), y.copy(), search_for_optimal_start=c["search"])
-            out["xx"] = [float(v) for v in xx]
-            out["yy"] = [float(v) for v in yy]
+            xx, yy = f(as_container(c["x"], kind), as_container(c["y"], kind), search_for_optimal_start=c["search"])
+            out["xx"] = [float(v) for v in np.asarray(xx).ravel()]
+            out["yy"] = [float(v) for v in np.asarray(yy).ravel()]
         except Exception as e:  # noqa
             out["err"] = type(e).__name__
             out["err_msg"] = str(e)[:200]
@@ -118,17 +155,21 @@ def order_of(c, out):
 def oracle_points(c, out=None):
     out = out or run_sorter(c)
     n = len(c["x"])
-    if n < 3:
-        return None          # NearestNeighbors(n_neighbors=2) needs at least 3 points: rejected by sklearn, outside the property
     sig = {"site": "sort_points_to_form_continuous_line", "clause": "permutation"}
+    kind = c.get("container", "ndarray")
     if "err" in out:
+        if n < 3:
+            return (dict(sig, clause="fewer-than-three-points"), "a set of %d point(s) is rejected: %s: %s" % (n, out["err"], out.get("err_msg", "")[:80]))
+        if kind not in ("ndarray", "int") and out["err"] in ("TypeError", "KeyError", "IndexError"):
+            return (dict(sig, clause="input-type"), "x, y given as %s (array_like): %s: %s" % (kind, out["err"], out.get("err_msg", "")[:80]))
         return (dict(sig, clause="unexpected-exception"), "sorter raised %s: %s" % (out["err"], out.get("err_msg", "")))
     inp = sorted(zip(c["x"], c["y"]))
     ret = sorted(zip(out["xx"], out["yy"]))
+    cl = "permutation" if kind in ("ndarray", "int") else "input-type"
     if len(ret) != len(inp):
-        return (sig, "%d of %d points returned (search_for_optimal_start=%r)" % (len(ret), len(inp), c["search"]))
+        return (dict(sig, clause=cl), "%d of %d points returned (search_for_optimal_start=%r, container %s)" % (len(ret), len(inp), c["search"], kind))
     if ret != inp:
-        return (sig, "returned points are not a permutation of the input points")
+        return (dict(sig, clause=cl), "returned points are not a permutation of the input points (container %s)" % kind)
     return None
 
 
@@ -141,11 +182,12 @@ Definition beq_list := all2 Bool.eqb.
 Definition knn_ok (n : nat) (nbr : list (list Z)) : bool :=
   Nat.eqb (List.length nbr) n && forallb (fun r => Nat.eqb (List.length r) 2 && forallb (fun j => (0 <=? j)%Z && (j <? Z.of_nat n)%Z) r) nbr.
 (* 0 same order; 1 different order; 2 model None; 3 kNN contract (2 neighbours per point, indices in range) broken *)
-Definition cmp_sort (xs ys : list float) (nbr : list (list Z)) (search : bool) (expected : list Z) : Z :=
+Definition cmp_sort (xs ys : list float) (nbr : list (list Z)) (search : bool) (exx eyy : list float) : Z :=
   if negb (knn_ok (List.length xs) nbr) then 3%Z else
   match f_sort_points xs ys nbr search with
   | None => 2%Z
-  | Some r => if all2 Z.eqb r expected then 0%Z else 1%Z
+  | Some r => if all2 fbits_eq (map (fun k => nth (Z.to_nat k) xs nan) r) exx && all2 fbits_eq (map (fun k => nth (Z.to_nat k) ys nan) r) eyy
+              then 0%Z else 1%Z
   end.
 """
 
@@ -154,10 +196,11 @@ def zrows(rows):
     return "[" + "; ".join(vlib.z_list(r) + "%Z" for r in rows) + "]"
 
 
-def coq_sort_case(c, out, order):
+def coq_sort_case(c, out, order=None):
     n = len(c["x"])
     rows = knn_rows(out["knn"][0], n)
-    return "cmp_sort %s %s %s %s %s%%Z" % (fl_list(c["x"]), fl_list(c["y"]), zrows(rows), "true" if c["search"] else "false", vlib.z_list(order))
+    return "cmp_sort %s %s %s %s %s %s" % (fl_list(c["x"]), fl_list(c["y"]), zrows(rows), "true" if c["search"] else "false",
+                                          fl_list(out["xx"]), fl_list(out["yy"]))
 
 
 # ------------------------------------------------------------------ part B: masks (contracts of the scipy engines)
@@ -473,7 +516,30 @@ def gen_contour_case(rng, max_cells, big=False, multimodal=False):
     model = M.build_model(desc)
     alpha = float(10 ** rng.uniform(-6, math.log10(0.3)))
     g = M.gen_grid(rng, model, desc, max_cells, alpha=alpha, min_axis=(25 if big else 6))
-    return {"kind": "contour", "desc": desc, "alpha": alpha, "limits": g["limits"], "deltas": g["deltas"]}
+    return {"kind": "contour", "desc": desc, "alpha": alpha, "limits": g["limits"], "deltas": g["deltas"],
+            "lim_form": g["lim_form"], "dl_form": g["dl_form"]}
+
+
+def gen_special_contour(rng, what, max_cells):
+    """default limits (Monte-Carlo marginal_icdf, seeded), 4-D models, the predefined model structures"""
+    if what == "default-limits":
+        n = rng.choice([2, 2, 3])
+        desc = M.gen_model_desc(rng, n)
+        model = M.build_model(desc)
+        alpha = float(10 ** rng.uniform(-2.3, math.log10(0.3)))
+        ups = M.typical_upper(model, desc, 1 - 0.04 * alpha)
+        per = 24 if n == 2 else 10
+        return {"kind": "contour", "desc": desc, "alpha": alpha, "limits": None,
+                "deltas": [float(u / rng.randrange(per // 2, per)) for u in ups], "np_seed": rng.randrange(2 ** 31)}
+    if what == "4d":
+        desc = M.gen_model_desc(rng, 4)
+    else:
+        desc = M.predefined_desc(what)
+    model = M.build_model(desc)
+    alpha = float(10 ** rng.uniform(-6, math.log10(0.3)))
+    g = M.gen_grid(rng, model, desc, min(max_cells, 800) if what == "4d" else max_cells, alpha=alpha, min_axis=(5 if what == "4d" else 8))
+    return {"kind": "contour", "desc": desc, "alpha": alpha, "limits": g["limits"], "deltas": g["deltas"],
+            "lim_form": g["lim_form"], "dl_form": g["dl_form"]}
 
 
 def l7_case():
@@ -486,9 +552,36 @@ def l7_case():
 
 def run_contour(c):
     model = M.build_model(c["desc"])
-    out = M.run_hdc(model, c["alpha"], c["limits"], c["deltas"])
+    if c.get("np_seed") is not None:
+        np.random.seed(c["np_seed"])
+    out = M.run_hdc(model, c["alpha"], c["limits"], c["deltas"], c.get("lim_form", "tuples"), c.get("dl_form", "asis"))
     out["model"] = model
     return out
+
+
+def plot_check(c, out):
+    """plot_2D_contour of a highest-density contour: the drawn line is `coordinates` in the sorter's order, closed.
+    Returns None, a note string (multi-region contours cannot be plotted) or a (signature, message) pair."""
+    import matplotlib.pyplot as plt
+    from virocon.plotting import plot_2D_contour
+    cont = out["contour"]
+    fig, ax = plt.subplots()
+    try:
+        try:
+            plot_2D_contour(cont, ax=ax)
+        except Exception as e:  # noqa
+            if isinstance(cont.coordinates, list):
+                return "multi-region:%s" % type(e).__name__
+            return ({"site": "plot_2D_contour", "clause": "plot"}, "plot_2D_contour of a single-region HDC raised %s: %s" % (type(e).__name__, str(e)[:100]))
+        line = ax.lines[-1]
+        co = np.asarray(cont.coordinates, dtype=float)
+        wx = list(co[:, 0]) + [co[0, 0]]
+        wy = list(co[:, 1]) + [co[0, 1]]
+        if [float(v) for v in line.get_xdata()] != wx or [float(v) for v in line.get_ydata()] != wy:
+            return ({"site": "plot_2D_contour", "clause": "plot"}, "the plotted line is not the coordinate array in its order, closed with the first point")
+        return None
+    finally:
+        plt.close(fig)
 
 
 def coords_as_sets(cont, n_dim):
@@ -512,7 +605,7 @@ def oracle_contour(c, out=None):
         if out["err"] == "IndexError":
             return None            # C02 / L14: nothing can be enclosed
         if out["err"] == "ValueError" and "n_neighbors" in out.get("err_msg", ""):
-            return "unjudgeable"   # fewer than 3 boundary cells: sklearn rejects the point set
+            return (dict(sig0, clause="fewer-than-three-points"), "a 2-D region with fewer than 3 boundary cells cannot be returned: the line sorter raises %s" % out["err_msg"][:90])
         return (dict(sig0, clause="unexpected-exception"), "HighestDensityContour raised %s: %s" % (out["err"], out.get("err_msg", "")))
     cont = out["contour"]
     if not out["erosions"]:
@@ -592,6 +685,9 @@ def coq_contour_case(c, out):
 
 
 def shrink_points(c, sig):
+    if len(c["x"]) <= 3:
+        return c
+
     def fails(idx):
         if len(idx) < 3:
             return False
@@ -647,11 +743,11 @@ def run(ctx):
     n_a = ctx.n(150, 2000)
     cases_a = [gen_points(rng, big=(i % 12 == 0)) for i in range(n_a)]
     outs_a = [run_sorter(c) for c in cases_a]
+    timing = {"sorter_py": round(time.time() - ctx.t0, 1)}
     coq_a = []
     for i, (c, o) in enumerate(zip(cases_a, outs_a)):
         n = len(c["x"])
-        order = None if "err" in o else order_of(c, o)
-        full = order is not None and sorted(order) == list(range(n))
+        full = "err" not in o and sorted(zip(o["xx"], o["yy"])) == sorted(zip(c["x"], c["y"]))
         key = "points/%s/%s" % (c["gen"], "err:" + o["err"] if "err" in o else ("all" if full else "lost"))
         dist[key] = dist.get(key, 0) + 1
         comps = 0
@@ -663,9 +759,11 @@ def run(ctx):
             g.add_edges_from((a, b) for a, r in enumerate(rows) for b in r)
             comps = nx.number_connected_components(g)
         ctx.count(("points", tuple(c["x"]), tuple(c["y"]), c["search"]), comps > 1)
-        if order is not None and o["knn"]:
-            coq_a.append((i, order))
-    ashard = 12
+        if "err" not in o and o["knn"] and len(o["xx"]) == n:
+            coq_a.append((i, None))
+        ck = "points/container:" + c.get("container", "ndarray")
+        dist[ck] = dist.get(ck, 0) + 1
+    ashard = 5
     for s in range(0, len(coq_a), ashard):
         body = SORT_PRELUDE + "Definition results : list Z := [\n" + ";\n".join(
             coq_sort_case(cases_a[i], outs_a[i], order) for i, order in coq_a[s:s + ashard]) + "].\nEval vm_compute in results.\n"
@@ -675,11 +773,12 @@ def run(ctx):
     n_b = ctx.n(300, 3000)
     cases_b = [gen_mask(rng, overlap=(i % 6 == 0)) for i in range(n_b)]
     res_b = [run_mask(c) for c in cases_b]
+    timing["masks_py"] = round(time.time() - ctx.t0, 1)
     for c, r in zip(cases_b, res_b):
         key = "mask/%dd/modes=%s%s" % (len(c["shape"]), r["n_modes"] if r["n_modes"] < 3 else "3+", "/overlap" if str(c.get("gen", "")).startswith("overlap") else "")
         dist[key] = dist.get(key, 0) + 1
         ctx.count(("mask", tuple(c["shape"]), tuple(c["mask"])), any(r["hdc"]) and any(r["erosion"]))
-    bshard = 100
+    bshard = 20
     for s in range(0, len(cases_b), bshard):
         body = MASK_PRELUDE + "Definition results : list Z := [\n" + ";\n".join(
             coq_mask_case(c, r) for c, r in zip(cases_b[s:s + bshard], res_b[s:s + bshard])) + "].\nEval vm_compute in results.\n"
@@ -698,9 +797,12 @@ def run(ctx):
         cases_c.append(gen_ridge_case(rng, 2))
     for i in range(ctx.n(1, 6)):
         cases_c.append(gen_ridge_case(rng, 3))
+    for what in ["default-limits"] * ctx.n(2, 10) + ["4d"] * ctx.n(2, 10) + sorted(M.PREDEFINED) * ctx.n(1, 3):
+        cases_c.append(gen_special_contour(rng, what, max_cells))
     for i in range(n_c):
         cases_c.append(gen_contour_case(rng, max_cells, multimodal=(i % 6 == 5)))
     outs_c = [run_contour(c) for c in cases_c]
+    timing["contours_py"] = round(time.time() - ctx.t0, 1)
     coq_c = []
     n_overlap = 0
     for i, (c, o) in enumerate(zip(cases_c, outs_c)):
@@ -722,12 +824,13 @@ def run(ctx):
         ctx.count(("contour", repr(c["desc"]), c["alpha"], repr(c["limits"]), repr(c["deltas"])), "contour" in o and not o["warned"])
         if "contour" in o and o["erosions"] and o["labels"] and o["f"].size <= 2500:
             coq_c.append(i)
-    cshard = 4
+    cshard = 2
     for s in range(0, len(coq_c), cshard):
         body = CONTOUR_PRELUDE + "Definition results : list Z := [\n" + ";\n".join(
             coq_contour_case(cases_c[i], outs_c[i]) for i in coq_c[s:s + cshard]) + "].\nEval vm_compute in results.\n"
         items.append(("contour_%d" % (s // cshard), body))
-    outs = ctx.coq_eval_many(items, jobs=12)
+    outs = ctx.coq_eval_many(items, jobs=16)
+    timing["coq"] = round(time.time() - ctx.t0, 1)
     # ---- evaluate
     def codes_of(lo, hi):
         res = []
@@ -747,7 +850,7 @@ def run(ctx):
                     {1: "order differs", 2: "model ran out of fuel", 3: "kNN contract broken"}.get(code, code),
                     len(cases_a[i]["x"]), cases_a[i]["search"], cases_a[i]["x"][:6], cases_a[i]["y"][:6]))
     # cases whose order could not even be recovered (points lost is visible without Coq)
-    lost_a = [i for i, (c, o) in enumerate(zip(cases_a, outs_a)) if "err" in o or order_of(c, o) is None or len(o["xx"]) != len(c["x"])]
+    lost_a = [i for i, (c, o) in enumerate(zip(cases_a, outs_a)) if "err" in o or len(o["xx"]) != len(c["x"])]
     nb, mism_b = 0, []
     for k, codes in enumerate(codes_of(n_sa, n_sb)):
         if codes is None:
@@ -782,8 +885,10 @@ def run(ctx):
             bad_engine += 1
             ctx.mismatch("scipy.ndimage contract", "%s (shape %r)" % (msg, c["shape"]))
     ctx.notes["engine_contract_failures"] = bad_engine
+    timing["engine_contracts"] = round(time.time() - ctx.t0, 1)
     # ---------------- search
     found, unjudge = 0, 0
+    reported = set()
     first_a = list(dict.fromkeys(mism_a + lost_a))
     for i in first_a + [i for i in range(len(cases_a)) if i not in first_a]:
         if found >= 4:
@@ -791,6 +896,10 @@ def run(ctx):
         o = oracle_points(cases_a[i], outs_a[i])
         if o is not None:
             sig, msg = o
+            rk = (sig["clause"], cases_a[i].get("container", "ndarray") if sig["clause"] == "input-type" else "")
+            if rk in reported:
+                continue              # one shrunk report per clause (and container) is enough
+            reported.add(rk)
             small = shrink_points(cases_a[i], sig)
             o2 = oracle_points(small)
             o2 = o2 if isinstance(o2, tuple) else o
@@ -809,6 +918,27 @@ def run(ctx):
             o2 = o2 if isinstance(o2, tuple) else o
             if ctx.violation(o2[0], "HighestDensityContour: " + o2[1], small):
                 found += 1
+    # plotting of 2-D highest-density contours: the line is the coordinate array in the sorter's order
+    nplot, plot_notes = 0, {}
+    nmulti = 0
+    for c, o in zip(cases_c, outs_c):
+        if nplot >= ctx.n(12, 60) or found >= 8:
+            break
+        if "contour" not in o or len(c["desc"]["dims"]) != 2:
+            continue
+        if isinstance(o["contour"].coordinates, list):
+            nmulti += 1
+            if nmulti > 2:
+                continue
+        nplot += 1
+        r = plot_check(c, o)
+        if isinstance(r, str):
+            plot_notes[r] = plot_notes.get(r, 0) + 1
+        elif r is not None:
+            if ctx.violation(r[0], "plot_2D_contour(HighestDensityContour): " + r[1], c):
+                found += 1
+    ctx.notes["plots_checked"] = nplot
+    ctx.notes["plot_notes"] = plot_notes
     # larger grids: oracle only
     n_big = ctx.n(4, 14)
     for i in range(n_big):
@@ -829,6 +959,8 @@ def run(ctx):
             o2 = o2 if isinstance(o2, tuple) else o
             if ctx.violation(o2[0], "HighestDensityContour: " + o2[1], small):
                 found += 1
+    timing["end"] = round(time.time() - ctx.t0, 1)
+    ctx.notes["timing_cumulative_s"] = timing
     ctx.notes["input_distribution"] = dist
     ctx.notes["unjudgeable"] = unjudge
     ctx.notes["contours_with_overlapping_region_bounding_boxes"] = n_overlap
